@@ -326,13 +326,27 @@ def apply_op(ctx, v, m, op, case):
         where = "values"
     elif kind == "badkey":
         ctx.tag("vec:rejected")
-        try:
-            v["no_such_name"] = 0.5
-            raised = False
-        except ValueError:
-            raised = True
+        raised = True
+        for bk in ("no_such_name", "values", "_values", "_maxs", "_mins", "_defaults",
+                   "hitbounds", "_hitbounds", "names", "nval", "maxs", "defaults"):
+            if bk in getattr(m, "names", ()):
+                continue
+            try:
+                v[bk] = 0.5 if not bk.endswith("values") else [0.5] * len(m.names)
+                raised = False
+                badkey = bk
+                break
+            except (ValueError, TypeError, AttributeError, KeyError):
+                pass
+            try:
+                _ = v[bk]
+                raised = False
+                badkey = bk + " (read)"
+                break
+            except (ValueError, TypeError, AttributeError, KeyError):
+                pass
         ctx.check("assign.rejected", raised, "Vector|key|accepts-unknown-key", case,
-                  None)
+                  lambda: {"key": badkey})
         where = "badkey"
     elif kind == "reset":
         v.reset()
